@@ -20,7 +20,7 @@ CHECK_DEADLOCK FALSE
 TABLE = [("N", "N", 14007, "ALA", 5, 0, 0, "A", "A", True, False, True, False, 1), ("CA", "C", 12011, "ALA", 5, 0, 0, "A", "A", True, False, True, False, 3),
          ("CB", "C", 12011, "ALA", 5, 0, 0, "A", "A", True, False, False, True, 1), ("C", "C", 12011, "ALA", 5, 0, 0, "A", "A", True, False, True, False, 2),
          ("N", "N", 14007, "GLY", 6, 1, 0, "A", "G", True, False, True, False, 2), ("CA", "C", 12011, "GLY", 6, 1, 0, "A", "G", True, False, True, False, 1),
-         ("O", "O", 15999, "HOH", 5, 2, 1, "B", "X", False, True, False, False, 2), ("H1", "H", 1008, "HOH", 5, 2, 1, "B", "X", False, True, False, False, 1),
+         ("O", "O", 15999, "HOH", 5, 2, 1, "B", "X", False, True, False, False, 2), ("H1'", "H", 1008, "HOH", 5, 2, 1, "B", "X", False, True, False, False, 1),
          ("H2", "H", 1008, "HOH", 5, 2, 1, "B", "X", False, True, False, False, 1), ("NA", "Na", 22990, "NA", 7, 3, 1, "B", "X", False, False, False, False, 0)]
 _top = None
 
@@ -155,7 +155,9 @@ def run(ctx):
     elif len(recs) > budget:
         bads = [x for x in recs if x["shape"] == "BAD"]
         strat = features if ctx.thorough else (lambda x: (x["shape"], tuple(x["kinds"])))
-        recs = stratified_sample([x for x in recs if x["shape"] != "BAD"], strat, budget, ctx.rng) + bads
+        primed = [x for x in recs if x["shape"] != "BAD" and any(t["k"] == "str" and ("'" in t["s"] or '"' in t["s"]) for t in x["toks"])]
+        ctx.rng.shuffle(primed)
+        recs = stratified_sample([x for x in recs if x["shape"] != "BAD"], strat, budget, ctx.rng) + bads + primed[:300]
     for i, x in enumerate(recs):
         x["_edited"] = (i % 3 == 1) and not ctx.replay or bool(x.get("_edited"))
     res = pool.run_tasks(_replay, recs, workers=16, timeout=120, batch=64, init=_init)
